@@ -74,6 +74,7 @@ static int lay_tracked[NLAY];
 static int objkind[NOBJ];		/* 0 = /c06/uobj, 1 + L = /c06/rc<L> */
 static int objrepl[NOBJ];		/* replace_program() done */
 extern void replace_programs (void);
+extern int reclaim_objects (void);
 static int unloaded[2];		/* blueprint object of uobj / base destructed by `unload` */
 static long fault_first = 0;	/* fault-injection sweep: first instruction index after which the state differed */
 extern long verif_fault_countdown;	/* hook H2 (src/interpret.c): error raised at the k-th dispatched instruction */
@@ -478,6 +479,8 @@ static int unit_op (int n, char **t, int *a)
       add_ref (ob, "c06 handle");
       uhandle[a[1]] = ob;
     }
+  else if (!strcmp (t[0], "reclaimu"))
+    reclaim_objects ();
   else if (!strcmp (t[0], "setvar"))
     assign_svalue (&hobj (a[1])->variables[a[2]], slot (a[3]));
   else if (!strcmp (t[0], "getvar"))
@@ -707,6 +710,8 @@ static int applicable (int n, char **t, int *a)
     }
   if (!strcmp (op, "reclaim"))
     return n == 1 && lpc_mode;
+  if (!strcmp (op, "reclaimu"))
+    return n == 1 && !lpc_mode;
   if (!strcmp (op, "fefun"))
     return n == 5 && lpc_mode && SL (a[2]) && SL (a[3]) && a[4] >= 0;
   if (!strcmp (op, "frest"))
